@@ -519,7 +519,7 @@ impl<W: Write> NcRunner<W> {
     fn pump(&mut self, w: &mut NcWorld, st: &Value) {
         let dt = getu(st, "dt");
         let names: Vec<String> = st["cs"].as_array().map(|a| a.iter().filter_map(|x| x.as_str().map(|s| s.to_string())).collect()).unwrap_or_default();
-        for _ in 0..getu(st, "n").max(1) {
+        for round in 0..getu(st, "n").max(1) {
             for c in &names {
                 if w.dead {
                     return;
@@ -541,6 +541,24 @@ impl<W: Write> NcRunner<W> {
             }
             if w.dead {
                 return;
+            }
+            // the server application sends a payload to the listed ids in every round ("spay": [[id, tag of the first round], ...],
+            // the tag grows with the rounds of this step); each one reaches the listed client it is addressed to
+            if let Some(sp) = st.get("spay").and_then(|x| x.as_array()) {
+                for p in sp {
+                    let id = p.get(0).and_then(|x| x.as_u64()).unwrap_or(0);
+                    let tag = p.get(1).and_then(|x| x.as_u64()).unwrap_or(0) + round;
+                    let b1 = w.emitted.len();
+                    self.step_inner(w, &json!({"a":"spayload","id":id,"tag":tag,"len":8}));
+                    if w.emitted.len() > b1 {
+                        let k = w.emitted.len();
+                        let to = w.emitted[k - 1].desc.get("to").and_then(|x| x.as_i64());
+                        let target = names.iter().find(|c| w.clients.get(*c).map(|cl| addr_idx(cli_addr(cl.addr))) == to).cloned();
+                        if let Some(c) = target {
+                            self.step_inner(w, &json!({"a":"cdeliver","c":c,"d":k}));
+                        }
+                    }
+                }
             }
             let b2 = w.emitted.len();
             self.step_inner(w, &json!({"a":"supdate","dt":dt}));
